@@ -3,7 +3,7 @@ types and function signatures (functions are made with reflect.FuncOf)."""
 import itertools
 
 PID = "C18"
-CASE_LIMIT = {"C18": 15}   # seconds: these cases are function calls, not sessions
+CASE_LIMIT = {"C18": 45}   # seconds: these cases are function calls, not sessions
 RULE = ("for each constructor (Map, Filter, Flatmap, Fold, Reduce, ReaderFunc, WriterFunc, Repartition, Reshuffle, Reshard, "
         "Prefixed, Cogroup, Head) the cross product of 11 input slice types (1-3 columns over int,int64,string,bool,float64,"
         "struct,implementing type; prefixes 1-2) with a signature universe (parameter lists derived from the slice's columns: "
